@@ -13,7 +13,7 @@ RULE = ("Plus: values with validators held in interface{} fields, map entries an
         "reflect.StructOf, x a configuration mentioning a random subset of the fields with valid values or one value violating a "
         "validator / of the wrong kind, x a pre-filled target (zero, valid, or invalid at a random position). Oracle (Lean): when Unpack "
         "returns nil, recValidate on the populated target - every validator of every reachable field, through pointers, slices, arrays, "
-        "maps - reports nothing; success/failure and the stored values must equal the model's. Plus: null settings inside lists and maps for element types that have to be created (pointers to arrays / slices / structs); two validator namespaces (ValidatorTag) on one type in one process; named slice / map types with Validate (catalogue). Non-trivial: the type declares at least "
+        "maps - reports nothing; success/failure and the stored values must equal the model's. Plus: null settings inside lists and maps for element types that have to be created (pointers to arrays / slices / structs); two validator namespaces (ValidatorTag) on one type in one process; named slice / map types with Validate (catalogue); interface{} fields with every validator spelling receiving scalars, lists, objects and nulls (D50). Non-trivial: the type declares at least "
         "one validator. Distinct by (type signature, which fields are mentioned, pre-fill class, outcome).")
 TRUSTED_BASE = ["Lean 4 kernel", "Model/Unpack.lean transcribes reify.go/validator.go over the type universe Ty (differential check)",
                 "reflect's behaviour (kinds, addressability, Convert) as modelled", "Stdlib parameters (ParseFloat, ParseDuration, regexp)",
@@ -232,6 +232,18 @@ def gen(rng, tier):
              "_tag": "unpack/validator-tags/" + ("default-then-alt" if first_default else "alt-then-default"), "_nt": True,
              "_sig": "vtags|%s|%s|%s" % (first_default, ",".join(f["v"] + "/" + f["valt"] for f in fs), ",".join(k for k, _ in kv))}
         yield c
+    # interface{} fields with validators: the value an interface receives is validated like a typed one (D50)
+    irng = rng.fork("iface-validators")
+    ivals = [I(0), I(1), I(-1), I(5), S(""), S("x"), F(0), F(0x4004000000000000), A([]), A([I(1)]), M([]), M([("k", I(1))]), None, B(False)]
+    ivs = ["required", "nonzero", "positive", "min=1", "min=3", "max=2", "min=2, max=9", "min", "max=x", "nonzero, min=1"]
+    for _ in range(n // 6):
+        fs, kv = [], []
+        for nm in TG.FIELD_NAMES[:1 + irng.below(3)]:
+            fs.append({"n": nm, "tag": "", "v": irng.pick(ivs) if irng.chance(0.85) else "", "ty": TG.T("iface")})
+            if irng.chance(0.85):
+                kv.append((nm.lower(), irng.pick(ivals)))
+        yield {"k": "unpack", "ty": TG.T("struct", f=fs), "old": None, "from": M(kv), "copts": [], "uopts": [], "strictErr": False,
+               "_tag": "unpack/iface-validators", "_nt": True}
     # named types with Validate / InitDefaults methods next to their method-less twins
     crng = rng.fork("catalog")
     for _ in range(n // 4):
